@@ -150,10 +150,11 @@ def louvain[S](
     # Collect non-empty communities
     communities = [c for c in comm_nodes.values() if c]
 
-    # Calculate final modularity
+    # Calculate final modularity; every unordered pair once, by position (labels need not be orderable: frozensets, mixed types)
+    position = {v: i for i, v in enumerate(node_list)}
     modularity = 0.0
     for comm in communities:
-        edges_within = sum(adj[v].get(w, 0.0) for v in comm for w in comm if v < w)
+        edges_within = sum(adj[v].get(w, 0.0) for v in comm for w in comm if position[v] < position[w])
         comm_deg = sum(degree[v] for v in comm)
         modularity += edges_within / total_weight - resolution * (comm_deg / (2 * total_weight)) ** 2
 
